@@ -1,23 +1,43 @@
 //! svcheck: one binary, one sub-command per property (`svcheck C01 quick`, `svcheck C01 --replay F`).
+#[cfg(feature = "c01")]
 mod c01;
+#[cfg(feature = "c02")]
 mod c02;
+#[cfg(feature = "c03")]
 mod c03;
+#[cfg(feature = "c04")]
 mod c04;
+#[cfg(feature = "c05")]
 mod c05;
+#[cfg(feature = "c06")]
 mod c06;
+#[cfg(feature = "c07")]
 mod c07;
+#[cfg(feature = "c08")]
 mod c08;
+#[cfg(feature = "c09")]
 mod c09;
+#[cfg(feature = "c10")]
 mod c10;
+#[cfg(feature = "c11")]
 mod c11;
+#[cfg(feature = "c12")]
 mod c12;
+#[cfg(feature = "c13")]
 mod c13;
+#[cfg(feature = "c14")]
 mod c14;
+#[cfg(feature = "c15")]
 mod c15;
+#[cfg(feature = "c16")]
 mod c16;
+#[cfg(feature = "c17")]
 mod c17;
+#[cfg(feature = "c18")]
 mod c18;
+#[cfg(feature = "c19")]
 mod c19;
+#[cfg(feature = "c20")]
 mod c20;
 mod common;
 mod selftest;
@@ -34,25 +54,45 @@ fn main() {
     let rest = &args[1..];
     let code = match id.as_str() {
         "selftest" => selftest::run(),
+        #[cfg(feature = "c01")]
         "C01" => main_entry(&c01::CHECK, c01::plan, rest),
+        #[cfg(feature = "c02")]
         "C02" => main_entry(&c02::CHECK, c02::plan, rest),
+        #[cfg(feature = "c03")]
         "C03" => main_entry(&c03::CHECK, c03::plan, rest),
+        #[cfg(feature = "c04")]
         "C04" => main_entry(&c04::CHECK, c04::plan, rest),
+        #[cfg(feature = "c05")]
         "C05" => main_entry(&c05::CHECK, c05::plan, rest),
+        #[cfg(feature = "c06")]
         "C06" => main_entry(&c06::CHECK, c06::plan, rest),
+        #[cfg(feature = "c07")]
         "C07" => main_entry(&c07::CHECK, c07::plan, rest),
+        #[cfg(feature = "c08")]
         "C08" => main_entry(&c08::CHECK, c08::plan, rest),
+        #[cfg(feature = "c09")]
         "C09" => main_entry(&c09::CHECK, c09::plan, rest),
+        #[cfg(feature = "c10")]
         "C10" => main_entry(&c10::CHECK, c10::plan, rest),
+        #[cfg(feature = "c11")]
         "C11" => main_entry(&c11::CHECK, c11::plan, rest),
+        #[cfg(feature = "c12")]
         "C12" => main_entry(&c12::CHECK, c12::plan, rest),
+        #[cfg(feature = "c13")]
         "C13" => main_entry(&c13::CHECK, c13::plan, rest),
+        #[cfg(feature = "c14")]
         "C14" => main_entry(&c14::CHECK, c14::plan, rest),
+        #[cfg(feature = "c15")]
         "C15" => main_entry(&c15::CHECK, c15::plan, rest),
+        #[cfg(feature = "c16")]
         "C16" => main_entry(&c16::CHECK, c16::plan, rest),
+        #[cfg(feature = "c17")]
         "C17" => main_entry(&c17::CHECK, c17::plan, rest),
+        #[cfg(feature = "c18")]
         "C18" => main_entry(&c18::CHECK, c18::plan, rest),
+        #[cfg(feature = "c19")]
         "C19" => main_entry(&c19::CHECK, c19::plan, rest),
+        #[cfg(feature = "c20")]
         "C20" => main_entry(&c20::CHECK, c20::plan, rest),
         other => {
             println!("INFRA: no check registered for {}", other);
